@@ -1,5 +1,6 @@
 import PkgModel.PyRt
 import PkgModel.Version
+import PkgModel.Specifier
 /-!
 # PyObj — how model values appear as Python objects
 
@@ -49,6 +50,14 @@ def ofKey (k : Key) : PyVal :=
 /-- a `Version` / `_TrimmedRelease` instance -/
 def ofVer (cls : String) (v : Ver) : PyVal :=
   .obj cls [("_version", ofVersionTuple v), ("_key", ofKey (cmpkey v))]
+
+def ofOptBool : Option Bool → PyVal
+  | none => .none
+  | some b => .bool b
+
+/-- a `Specifier` instance: `_spec = (operator, version text)` and the stored `prereleases` override -/
+def ofSpec (sp : S.Spec) (override : Option Bool) : PyVal :=
+  .obj "Specifier" [("_spec", .tuple [.str sp.op.str, .str sp.ver]), ("_prereleases", ofOptBool override)]
 
 /-- `Version(s)` / `_TrimmedRelease(s)`: the constructor as a primitive backed by the scanner `V.scan`
 (`Version.__init__`: regex match, `_Version(...)`, `_cmpkey(...)`) -/
